@@ -98,6 +98,15 @@ def replay_co(model, side="below", defaults=False):
             / oil.b_o_bubblepoint_Standing(m["T"], m["api"], m["gg"], m["rsi"])
         return abs(got - want) > 1e-9 * abs(want), {"what": f"standard conditions left to their defaults: oil_compressibility_Standing {got!r} vs the combination with "
                                                              f"the library's own b_factor_DAK(T, p, Tpc, ppc) {want!r}", "inputs": m}
+    # exactly AT the bubble point (the value a caller gets from pressure_bubblepoint_Standing, bit for bit - the solver's
+    # p == p_b cannot be hit in doubles): the undersaturated correlation applies there
+    import math
+    for q in (float(pb), math.nextafter(float(pb), math.inf)):
+        a_b = (m["T"], q, m["api"], m["gg"], m["rsi"])
+        got_b = float(oil.oil_compressibility_Standing(*a_b, m["tpc"], m["ppc"], m["tstd"], m["pstd"]))
+        want_b = float(oil.oil_compressibility_undersat_Spivey(*a_b))
+        if abs(got_b - want_b) > 1e-9 * abs(want_b):
+            return True, {"what": f"at the bubble point p = {q!r}: oil_compressibility_Standing = {got_b!r} vs the undersaturated correlation {want_b!r}", "inputs": dict(m, p=q)}
     got = oil.oil_compressibility_Standing(*a5, m["tpc"], m["ppc"], m["tstd"], m["pstd"])
     if m["p"] >= pb:
         want = oil.oil_compressibility_undersat_Spivey(*a5)
